@@ -15,7 +15,9 @@ RELOCATING = ("swap", "swap_remove", "remove", "insert", "retain", "retain_mut",
               "splice", "fill", "fill_with", "swap_with_slice", "copy_from_slice", "clone_from_slice", "copy_within", "select_nth_unstable", "set_len", "extend_from_within")
 LEAKS = ("core::mem::forget", "core::mem::manually_drop::ManuallyDrop", "alloc::boxed::Box::<T>::leak", "alloc::boxed::Box::<T, A>::leak", "::set_len", "core::ptr::write", "core::ptr::read",
          "core::mem::transmute", "core::mem::zeroed", "core::mem::MaybeUninit", "alloc::vec::Vec::<T, A>::into_raw_parts", "alloc::vec::Vec::<T, A>::leak")
-ALLOWED_DATA_WRITERS = {"crate::arena::Arena<T>::free_node", "crate::node::Node<T>::reuse"}
+# payload and stamp of a slot may change only below these two entry points, whose every dynamic write E2 classifies (helpers they call, under whatever private
+# name, are covered by the call-graph gating rule: every way of reaching the helper goes through a gate)
+GATES = {"crate::arena::Arena<T>::free_node", "crate::arena::Arena<T>::new_node"}
 E2_ENTRIES = ["detach", "checked_append", "checked_prepend", "checked_insert_after", "checked_insert_before", "append_value", "new_node", "remove", "remove_subtree", "free_node", "clear"]
 
 
@@ -43,9 +45,10 @@ def main(tier):
     # (b) writers of Node.data
     sites = [s for s in rules.field_sites(prog, "crate::node::Node", "data") if s["kind"] in ("write", "mutref") and not prog.fns[s["fn"]].get("impl_derived")]
     wf = sorted({s["fn"] for s in sites})
-    allowed = ALLOWED_DATA_WRITERS | {"crate::node::Node<T>::get_mut"}
-    run.ob("payload-writers", "Node.data is written/mutably borrowed only in %s: found %s" % (sorted(allowed), wf), set(wf) <= allowed,
-           key="payload-writers|Node.data written in %s" % ",".join(f for f in wf if f not in allowed), detail=[(s["fn"], prog.loc(s["span"]), s["kind"]) for s in sites], nontrivial="writers", sample=True)
+    bad = [f for f in wf if f != "crate::node::Node<T>::get_mut" and not idx.gated(f, GATES)]
+    run.ob("payload-writers", "Node.data is written/mutably borrowed only in Node::get_mut and in functions reachable only through free_node / new_node: found %s" % wf, not bad,
+           key="payload-writers|Node.data written in %s" % ",".join(bad), detail=[(s["fn"], prog.loc(s["span"]), s["kind"]) for s in sites] + [("path", idx.ungated_path(b, GATES)) for b in bad],
+           nontrivial="writers", sample=True)
     run.floor("Node.data write sites", len([s for s in sites if s["kind"] == "write"]), 3)
     # structural code never touches data
     for mod in ("crate::relations::", "crate::siblings_range::"):
@@ -73,9 +76,8 @@ def main(tier):
             if rec["exit"] == "undecided":
                 continue
             pw = rec.get("payload_writes", [])
-            # the stamp is written inside NodeStamp::as_removed / reuse, which C06 shows are reached only from free_node / Node::reuse
-            okw = ALLOWED_DATA_WRITERS | {"crate::id::NodeStamp::as_removed", "crate::id::NodeStamp::reuse"}
-            badw = [w for w in pw if w[2] not in okw or (w[1] == "data" and w[2] not in ALLOWED_DATA_WRITERS)]
+            # data and stamp are written in free_node / new_node or in helpers reachable only through them (C06 decides what the stamp helpers compute)
+            badw = [w for w in pw if not (w[2] and w[2] in prog.fns and idx.gated(w[2], GATES))]
             run.ob("frame", "%s/%s: data/stamp written only inside free_node / Node::reuse" % (entry, prof), not badw,
                    key="frame|%s writes data/stamp of a node in %s" % (entry, ",".join(sorted({w[2] or "?" for w in badw}))), detail=e2props.detail_of(rec), nontrivial=(entry, "frame", bool(pw)))
             drops = [d for d in rec.get("payload_drops", []) if d[1]]
